@@ -173,9 +173,13 @@ where D::Annotation: AnnJson {
     match route {
         "string" => match c.string_from_read(html, w) { Ok(s) => Outcome::Ok(plain_lines(&s)), Err(e) => err_outcome(e) },
         "lines" => match c.lines_from_read(html, w) { Ok(l) => Outcome::Ok(tagged_lines(&l)), Err(e) => err_outcome(e) },
-        "staged_string" | "staged_lines" | "staged_clone_string" => {
+        "staged_string" | "staged_lines" | "staged_clone_string" | "restaged_string" | "restaged_lines" => {
             let dom = match c.parse_html(html) { Ok(d) => d, Err(e) => return err_outcome(e) };
             let tree = match c.dom_to_render_tree(&dom) { Ok(t) => t, Err(e) => return err_outcome(e) };
+            // restaged: the same parsed document converted a second time (as a viewer does on every redraw); the
+            // first tree is dropped, the second one rendered
+            let tree = if route.starts_with("restaged") { drop(tree); match c.dom_to_render_tree(&dom) { Ok(t) => t, Err(e) => return err_outcome(e) } } else { tree };
+            let route = if route == "restaged_lines" { "staged_lines" } else if route == "restaged_string" { "staged_string" } else { route };
             let tree = if route == "staged_clone_string" { let t2 = tree.clone(); drop(tree); t2 } else { tree };
             if route == "staged_lines" {
                 match c.render_to_lines(tree, w) { Ok(l) => Outcome::Ok(tagged_lines(&l)), Err(e) => err_outcome(e) }
